@@ -276,6 +276,24 @@ func (ev *evaluator) ident(name string) *Val {
 	if v := ev.local(name); v != nil {
 		return v
 	}
+	// variables of the enclosing functions (closures inlined into their parent)
+	for c := ev.fr.caller; c != nil; c = c.caller {
+		if rootParent(c.fn) != rootParent(ev.fr.fn) {
+			break
+		}
+		sub := &evaluator{x: ev.x, fr: c, st: ev.st, lets: map[string]*Val{}, owned: ev.owned}
+		for i, p := range c.fn.Params {
+			if p.Name() == name && i < len(c.params) {
+				return c.params[i]
+			}
+		}
+		if v := sub.local(name); v != nil {
+			if sub.owned && !ev.owned {
+				ev.st, ev.owned = sub.st, true
+			}
+			return v
+		}
+	}
 	// package level
 	if pkg := ev.pkgOf(); pkg != nil {
 		if obj := pkg.Scope().Lookup(name); obj != nil {
@@ -731,6 +749,25 @@ func (ev *evaluator) lookupSpec(name string) *SpecFunc {
 func (ev *evaluator) applySpec(sf *SpecFunc, args []ast.Expr) *Val {
 	if len(args) != len(sf.Params) {
 		ev.errorf("spec %s: wrong number of arguments", sf.Name)
+	}
+	if sf.Expr == nil {
+		// uninterpreted specification function
+		var ts []*Term
+		for _, a := range args {
+			v := ev.ev(a)
+			if v.T == nil {
+				ev.errorf("spec %s applied to a non-term", sf.Name)
+			}
+			ts = append(ts, v.T)
+		}
+		rs, rt := SBool, types.Type(boolT)
+		switch sf.Ret {
+		case "int":
+			rs, rt = SInt, intT
+		case "string":
+			rs, rt = SStr, types.Typ[types.String]
+		}
+		return &Val{T: UF("spec."+sanitize(sf.Pkg[strings.LastIndex(sf.Pkg, "/")+1:])+"."+sf.Name, rs, ts...), Typ: rt}
 	}
 	sub := &evaluator{x: ev.x, fr: ev.fr, st: ev.st, over: ev.over, lets: map[string]*Val{}, blk: ev.blk, owned: ev.owned}
 	// spec bodies are resolved in the package that declares them
